@@ -793,8 +793,10 @@ func c17SchedCase(t *testing.T, r *vfRand, i int) (term string, desc map[string]
 		maxLen := []int{3, 8, 16, 30}[r.Intn(4)]
 		for j := 0; j < np; j++ {
 			p := c17RandBits(r, r.Intn(maxLen+1))
-			if interval > time.Hour && len(p) > 16 {
-				p = p[:16] // beyond, int64(interval)*val overflows (documented guard of the theorems)
+			// int64(interval) * val overflows beyond (documented guard of the theorems):
+			// keep interval * 2^min(len,24) below 2^63
+			for l := min(len(p), 24); l > 0 && float64(interval)*float64(uint64(1)<<uint(l)) >= 9.0e18; l-- {
+				p = p[:l-1]
 			}
 			d := prov.reprovideTimeForPrefix(bitstr.Key(p))
 			it = append(it, fmt.Sprintf("(%s, %d)", vfBits(p), int64(d)))
